@@ -55,7 +55,7 @@ NotDone == [done |-> FALSE]
 Init == c \in Cases /\ r = NotDone
 
 (* deviations that change the outcome of this case *)
-Fired(f(_)) == {d \in Devs : f({d}) # f({})}
+Fired(f(_)) == IF f(Devs) = f({}) THEN {} ELSE {d \in Devs : f({d}) # f({})}
 
 (* certain = the required outcome is fixed by C11 (or, for wide enums, by C23 and both reference compilers) *)
 WideEnumOperand(o) == IsWideEnum(o.t)
